@@ -437,8 +437,28 @@ func vDeclarationsNoPanic() (int, []string) {
 			}
 		}
 	}
+	// shorthands take longer values: four tokens over ten shapes
+	small := []string{"auto", "none", "normal", "0", "10px", "50%", "/", ",", "red", "span"}
+	for sh := pr.Shortand(1); int(sh) < len(expanders); sh++ {
+		failed := len(fails)
+		for _, a := range small {
+			for _, b := range small {
+				for _, c := range small {
+					for _, d := range small {
+						try(sh.String(), a+" "+b+" "+c+" "+d)
+					}
+				}
+				if len(fails) > failed {
+					break
+				}
+			}
+			if len(fails) > failed {
+				break
+			}
+		}
+	}
 	return n, fails
 }
 
-//@ bounded vDeclarationsNoPanic every property and shorthand name x every value of 1 to 3 tokens over 16 token shapes through PreprocessDeclarations: no panic
+//@ bounded vDeclarationsNoPanic every property and shorthand name x every value of 1 to 3 tokens over 16 token shapes, and every shorthand x every value of 4 tokens over 10 shapes, through PreprocessDeclarations: no panic
 //@   props C07 C01
